@@ -8,6 +8,7 @@
 -/
 import Golib.Gen.C02
 import Golib.Value.Codes
+import Golib.Value.ApiTable
 
 namespace C02Gen
 open Value
@@ -54,6 +55,22 @@ theorem no_package_state_written : Gen.C02.stateRefs.all (fun r => r.2.2.1 == "r
 theorem codec_has_no_hidden_state :
     Gen.C02.pkgVars.filter (fun p => p.1 == "lang/value" || p.1 == "io") = codecPkgVars ∧
     Gen.C02.stateRefs.filter (fun r => r.1 == "lang/value" || r.1 == "io") = codecStateRefs := by decide
+
+/-- the exported wrappers, typed look-ups and map-only entry points modelled in Golib/Value/Api.lean: the calls
+    and type-code tests of every body are the ones the model makes — the constructor a wrapper stores
+    (`PutLong` / `AddLong`: DecimalValue, `PutString` / `AddString`: TextValue, `NewList`: ListValue) and the
+    constant a typed look-up tests (`GetLong`: VALUE_DECIMAL, `GetFloat`: VALUE_FLOAT …) are read off the model
+    (`storedM`, `testedM`), `PutAll` enumerates the other map and Puts, `WriteMapValue` / `IntMapValue.WriteValue`
+    are tag byte + body like `WriteValue`, `ReadMapValue` reads one byte and compares it with the map's code -/
+theorem api_skeletons_agree : Gen.C02.apiCalls = apiTable := by decide
+
+/-- what `storedM` / `testedM` read off the model, spelled out (so that a change of the model is seen here) -/
+theorem api_model_choices :
+    storedM (.putLong [] 0) = "NewDecimalValue" ∧ storedM (.putString [] []) = "NewTextValue" ∧
+    storedM (.newList []) = "NewListValue" ∧ storedL (.addLong 0) = "NewDecimalValue" ∧
+    testedM .getLong = ["==VALUE_DECIMAL"] ∧ testedM .getFloat = ["==VALUE_FLOAT"] ∧
+    testedM .getString = ["==VALUE_TEXT"] ∧ testedM .getBool = ["==VALUE_BOOLEAN"] ∧
+    testedL .getString = ["==VALUE_TEXT"] ∧ testedL .getBool = ["==VALUE_BOOLEAN"] := by decide
 
 theorem source_codes_distinct : (Gen.C02.consts.map (·.2)).Nodup := by decide
 
